@@ -1,6 +1,7 @@
-(* Proofs about Lang/Sections.v : the stitched order is sorted by section kind, it is
-   well-formed (declared before use) under the guard, a user function that mentions an
-   ultrasonic helper or a later function breaks it, and forward declarations repair it. *)
+(* Proofs about Lang/Sections.v : the stitched order is sorted by section kind and - thanks to the
+   prototypes - well-formed (declared before use) under a guard that lets a function mention any
+   function and any ultrasonic helper; without the prototypes (the order before the repair) a user
+   function that mentions an ultrasonic helper or a later function breaks it. *)
 From Coq Require Import ZArith List Bool Lia Sorting.Sorted.
 From RV Require Import Base.Wire Lang.Sections.
 Import ListNotations.
@@ -177,21 +178,46 @@ Qed.
 Lemma count_app k l1 l2 : count_kind k (l1 ++ l2) = (count_kind k l1 + count_kind k l2)%nat.
 Proof. unfold count_kind. rewrite filter_app, app_length. reflexivity. Qed.
 
+Lemma kinds_protos (l : list body) : map ikind (map proto_of l) = map (fun _ => KProto) l.
+Proof. rewrite map_map. reflexivity. Qed.
+
+Lemma count_protos k (l : list body) :
+  rank KProto <> rank k -> count_kind k (map proto_of l) = 0%nat.
+Proof.
+  intros NE. unfold count_kind. induction l as [|b l IH]; [reflexivity|].
+  cbn [map filter]. unfold ikind at 1, proto_of at 1. cbn [fst].
+  destruct (Z.eqb_spec (rank KProto) (rank k)); [contradiction|]. exact IH.
+Qed.
+
 Theorem section_order sk :
   StronglySorted kind_le (map ikind (stitch sk)) /\
   count_kind KSetup (stitch sk) = 1%nat /\ count_kind KLoop (stitch sk) = 1%nat /\
   exists pre, stitch sk = pre ++ [tag KSetup (sk_setup sk); tag KLoop (sk_loop sk)].
 Proof.
   split; [|split; [|split]].
-  - unfold stitch. rewrite !map_app, !kinds_block.
+  - unfold stitch, protos. generalize (sk_functions sk ++ sk_ultras sk) as P. intros P.
+    rewrite !map_app, !kinds_block, kinds_protos.
     repeat (apply SS_app; [apply const_block_sorted| |
       intros a b Ha Hb; apply const_block_In in Ha; subst a;
       repeat (apply in_app_iff in Hb as [Hb|Hb]; [apply const_block_In in Hb; subst b; unfold kind_le; cbn; lia|]);
       cbn in Hb; destruct Hb as [<-|[<-|[]]]; unfold kind_le; cbn; lia]).
     cbn. repeat constructor. unfold kind_le. cbn. lia.
-  - unfold stitch. rewrite !count_app, !count_block by (cbn; lia). reflexivity.
-  - unfold stitch. rewrite !count_app, !count_block by (cbn; lia). reflexivity.
+  - unfold stitch, protos. generalize (sk_functions sk ++ sk_ultras sk) as P. intros P.
+    rewrite !count_app, !count_block, count_protos by (cbn; lia). reflexivity.
+  - unfold stitch, protos. generalize (sk_functions sk ++ sk_ultras sk) as P. intros P.
+    rewrite !count_app, !count_block, count_protos by (cbn; lia). reflexivity.
   - unfold stitch. eexists. rewrite !app_assoc. reflexivity.
+Qed.
+
+(* one prototype per function definition and per ultrasonic helper, in that order, each declaring
+   exactly the names of its definition *)
+Theorem protos_spec sk :
+  map idefs (protos sk) = map fst (sk_functions sk ++ sk_ultras sk) /\
+  Forall (fun it => ikind it = KProto /\ iuses it = []) (protos sk).
+Proof.
+  unfold protos. split.
+  - rewrite map_map. reflexivity.
+  - apply Forall_forall. intros it H. apply in_map_iff in H as (b & <- & _). split; reflexivity.
 Qed.
 
 (* ------------------------------------------------------------ well-formed under the guard *)
@@ -207,81 +233,6 @@ Ltac in_apps :=
   end;
   repeat rewrite in_app_iff; tauto.
 
-Theorem wf_order_partial sk : guard sk = true -> wf_order (stitch sk) = true.
-Proof.
-  unfold guard, section_ok. intros G.
-  repeat (apply andb_true_iff in G as [G ?]).
-  rename G into G1, H4 into G2, H3 into G3, H2 into G4, H1 into G5, H0 into G6, H into G7.
-  unfold wf_order, stitch.
-  rewrite wf_from_app. apply andb_true_iff. split; [exact G1|].
-  rewrite wf_from_app. apply andb_true_iff. split.
-  { eapply wf_from_ext; [|exact G2]. intros u Hu. apply seen_after_tagged. auto. }
-  rewrite wf_from_app. apply andb_true_iff. split.
-  { eapply wf_from_ext; [|exact G3]. intros u Hu.
-    apply seen_after_tagged. rewrite seen_after_tagged. in_apps. }
-  rewrite wf_from_app. apply andb_true_iff. split.
-  { eapply wf_from_ext; [|exact G4]. intros u Hu.
-    apply seen_after_tagged. rewrite !seen_after_tagged. in_apps. }
-  rewrite wf_from_app. apply andb_true_iff. split.
-  { eapply wf_from_ext; [|exact G5]. intros u Hu.
-    apply seen_after_tagged. rewrite !seen_after_tagged. in_apps. }
-  cbn [wf_from]. rewrite andb_true_r. apply andb_true_iff. split.
-  - eapply uses_ok_ext; [|exact G6]. intros u Hu. unfold idefs, tag. cbn [fst snd].
-    apply in_app_iff in Hu as [Hu|Hu]; apply in_app_iff; [left; exact Hu|right].
-    rewrite !seen_after_tagged. in_apps.
-  - eapply uses_ok_ext; [|exact G7]. intros u Hu. unfold idefs, tag. cbn [fst snd].
-    apply in_app_iff in Hu as [Hu|Hu]; apply in_app_iff; [left; exact Hu|right].
-    apply in_app_iff in Hu as [Hu|Hu]; apply in_app_iff; [left; exact Hu|right].
-    rewrite !seen_after_tagged. in_apps.
-Qed.
-
-Theorem wf_order_partial_prop sk : guard sk = true -> declared_before (stitch sk).
-Proof. intros G. apply wf_order_spec. apply wf_order_partial. exact G. Qed.
-
-(* ------------------------------------------------------------ the refutations *)
-
-Theorem fn_uses_ultra_breaks core fn helper :
-  helper <> fn -> helper <> core ->
-  wf_order (stitch (ultra_in_function core fn helper)) = false /\
-  undeclared (stitch (ultra_in_function core fn helper)) = [(1, helper)].
-Proof.
-  intros A B. unfold wf_order, undeclared, stitch, ultra_in_function. cbn.
-  destruct (Z.eqb_spec helper fn); [contradiction|].
-  destruct (Z.eqb_spec helper core); [contradiction|].
-  cbn. rewrite !Z.eqb_refl. cbn. rewrite ?orb_true_r. cbn. split; reflexivity.
-Qed.
-
-Theorem fn_forward_call_breaks core f g :
-  g <> f -> g <> core ->
-  wf_order (stitch (forward_call core f g)) = false.
-Proof.
-  intros A B. unfold wf_order, stitch, forward_call. cbn.
-  destruct (Z.eqb_spec g f); [contradiction|].
-  destruct (Z.eqb_spec g core); [contradiction|]. reflexivity.
-Qed.
-
-Theorem fn_uses_ultra_refuted :
-  exists sk, (forall pre it post, stitch sk = pre ++ it :: post ->
-              ikind it = KFunction -> forall j, In j pre -> ikind j <> KUltra) /\
-             wf_order (stitch sk) = false.
-Proof.
-  exists (ultra_in_function 1 2 3). split.
-  - intros pre it post E K j Hj. cbn in E.
-    destruct pre as [|p0 pre]; [injection E as <- _; discriminate K|].
-    injection E as <- E. destruct pre as [|p1 pre].
-    + destruct Hj as [<-|[]]. discriminate.
-    + injection E as <- E. exfalso.
-      destruct pre as [|p2 pre]; [injection E as <- _; discriminate K|].
-      injection E as <- E.
-      destruct pre as [|p3 pre]; [injection E as <- _; discriminate K|].
-      injection E as <- E.
-      destruct pre as [|p4 pre]; [injection E as <- _; discriminate K|].
-      injection E as <- E. destruct pre; discriminate E.
-  - apply fn_uses_ultra_breaks; discriminate.
-Qed.
-
-(* ------------------------------------------------------------ the repair *)
-
 Lemma forallb_body_section seen k l :
   forallb (body_ok seen) l = true -> wf_from seen (map (tag k) l) = true.
 Proof.
@@ -294,30 +245,39 @@ Proof.
   right. apply in_app_iff. auto.
 Qed.
 
-Theorem proto_fix_wf sk : guard_proto sk = true -> wf_order (stitch_proto sk) = true.
+Lemma protos_defs (l : list body) u :
+  (exists it, In it (map proto_of l) /\ In u (idefs it)) <-> In u (defs_of l).
 Proof.
-  unfold guard_proto, section_ok. intros G.
+  unfold defs_of. rewrite in_flat_map. split.
+  - intros (it & H & Hu). apply in_map_iff in H as (b & <- & Hb). exists b. auto.
+  - intros (b & Hb & Hu). exists (proto_of b). split; [apply in_map; exact Hb|exact Hu].
+Qed.
+
+Lemma wf_protos seen (l : list body) : wf_from seen (map proto_of l) = true.
+Proof. revert seen. induction l as [|b l IH]; intros seen; [reflexivity|]. cbn. apply IH. Qed.
+
+Lemma defs_of_app a b : defs_of (a ++ b) = defs_of a ++ defs_of b.
+Proof. unfold defs_of. apply flat_map_app. Qed.
+
+Theorem wf_order_partial sk : guard sk = true -> wf_order (stitch sk) = true.
+Proof.
+  unfold guard, section_ok. intros G.
   repeat (apply andb_true_iff in G as [G ?]).
   rename G into G1, H4 into G2, H3 into G3, H2 into G4, H1 into G5, H0 into G6, H into G7.
-  unfold wf_order, stitch_proto.
+  unfold wf_order, stitch.
   rewrite wf_from_app. apply andb_true_iff. split; [exact G1|].
   rewrite wf_from_app. apply andb_true_iff. split.
   { eapply wf_from_ext; [|exact G2]. intros u Hu. apply seen_after_tagged. auto. }
   rewrite wf_from_app. apply andb_true_iff. split.
   { eapply wf_from_ext; [|exact G3]. intros u Hu.
     apply seen_after_tagged. rewrite seen_after_tagged. in_apps. }
-  rewrite wf_from_app. apply andb_true_iff. split; [reflexivity|].
-  set (avail := seen_after _ [proto_item sk]).
+  rewrite wf_from_app. apply andb_true_iff. split; [apply wf_protos|].
+  set (avail := seen_after _ (protos sk)).
   assert (AV : forall u, In u avail <->
      In u (defs_of (sk_functions sk)) \/ In u (defs_of (sk_ultras sk)) \/
      In u (defs_of (sk_globals sk)) \/ In u (defs_of (sk_helpers sk)) \/ In u (defs_of (sk_includes sk))).
-  { intros u. unfold avail. rewrite seen_after_In. rewrite !seen_after_tagged.
-    unfold proto_item. split.
-    - intros [H|(it & [<-|[]] & H)]; [in_apps|]. unfold idefs in H. cbn [fst snd] in H. in_apps.
-    - intros H. destruct H as [H|[H|H]].
-      + right. eexists. split; [left; reflexivity|]. unfold idefs. cbn [fst snd]. in_apps.
-      + right. eexists. split; [left; reflexivity|]. unfold idefs. cbn [fst snd]. in_apps.
-      + left. in_apps. }
+  { intros u. unfold avail, protos. rewrite seen_after_In, protos_defs, defs_of_app, in_app_iff.
+    rewrite !seen_after_tagged. split; intros H; in_apps. }
   rewrite wf_from_app. apply andb_true_iff. split.
   { apply forallb_body_section. rewrite forallb_forall in *. intros b Hb.
     specialize (G4 b Hb). unfold body_ok in *. eapply uses_ok_ext; [|exact G4].
@@ -338,32 +298,108 @@ Proof.
     rewrite !seen_after_tagged. rewrite AV. in_apps.
 Qed.
 
-(* the two refuting shapes are inside the repaired guard *)
-Theorem proto_fix_covers_findings core fn helper :
-  wf_order (stitch_proto (ultra_in_function core fn helper)) = true /\
-  wf_order (stitch_proto (forward_call core fn helper)) = true.
+Theorem wf_order_partial_prop sk : guard sk = true -> declared_before (stitch sk).
+Proof. intros G. apply wf_order_spec. apply wf_order_partial. exact G. Qed.
+
+(* ------------------------------------------------------------ the two repaired shapes *)
+
+(* a user function that calls <sensor>.measure_distance(), and a function that calls one defined
+   further down: inside the guard, hence declared before use - for every choice of names *)
+Theorem fn_uses_ultra_declared core fn helper :
+  guard (ultra_in_function core fn helper) = true /\
+  wf_order (stitch (ultra_in_function core fn helper)) = true /\
+  undeclared (stitch (ultra_in_function core fn helper)) = [].
 Proof.
-  split; apply proto_fix_wf; unfold guard_proto, section_ok, body_ok; cbn;
-    rewrite ?Z.eqb_refl, ?orb_true_r; reflexivity.
+  assert (G : guard (ultra_in_function core fn helper) = true).
+  { unfold guard, section_ok, body_ok; cbn; rewrite ?Z.eqb_refl, ?orb_true_r; reflexivity. }
+  split; [exact G|]. split; [|apply undeclared_spec]; apply wf_order_partial; exact G.
+Qed.
+
+Theorem fn_forward_call_declared core f g :
+  guard (forward_call core f g) = true /\
+  wf_order (stitch (forward_call core f g)) = true /\
+  undeclared (stitch (forward_call core f g)) = [].
+Proof.
+  assert (G : guard (forward_call core f g) = true).
+  { unfold guard, section_ok, body_ok; cbn; rewrite ?Z.eqb_refl, ?orb_true_r; reflexivity. }
+  split; [exact G|]. split; [|apply undeclared_spec]; apply wf_order_partial; exact G.
+Qed.
+
+(* ------------------------------------------------------------ what the prototypes are for *)
+
+(* in the order before the repair both shapes use an undeclared name, for every choice of names *)
+Theorem noproto_fn_uses_ultra_breaks core fn helper :
+  helper <> fn -> helper <> core ->
+  wf_order (stitch_noproto (ultra_in_function core fn helper)) = false /\
+  undeclared (stitch_noproto (ultra_in_function core fn helper)) = [(1, helper)].
+Proof.
+  intros A B. unfold wf_order, undeclared, stitch_noproto, ultra_in_function. cbn.
+  destruct (Z.eqb_spec helper fn); [contradiction|].
+  destruct (Z.eqb_spec helper core); [contradiction|].
+  cbn. rewrite !Z.eqb_refl. cbn. rewrite ?orb_true_r. cbn. split; reflexivity.
+Qed.
+
+Theorem noproto_fn_forward_call_breaks core f g :
+  g <> f -> g <> core ->
+  wf_order (stitch_noproto (forward_call core f g)) = false.
+Proof.
+  intros A B. unfold wf_order, stitch_noproto, forward_call. cbn.
+  destruct (Z.eqb_spec g f); [contradiction|].
+  destruct (Z.eqb_spec g core); [contradiction|]. reflexivity.
+Qed.
+
+(* the repair only widens: whatever the old guard admitted is admitted now *)
+Lemma section_bodies_ok seen k l :
+  wf_from seen (map (tag k) l) = true ->
+  forall b, In b l -> body_ok (defs_of l ++ seen) b = true.
+Proof.
+  revert seen. induction l as [|x l IH]; intros seen H b Hb; [destruct Hb|].
+  cbn [map wf_from] in H. apply andb_true_iff in H as [H1 H2].
+  destruct Hb as [<-|Hb].
+  - unfold body_ok. eapply uses_ok_ext; [|exact H1]. intros u Hu.
+    unfold idefs, tag in Hu. cbn [fst snd] in Hu. unfold defs_of. cbn [flat_map].
+    apply in_app_iff in Hu as [Hu|Hu]; repeat rewrite in_app_iff; tauto.
+  - specialize (IH _ H2 b Hb). unfold body_ok in *. eapply uses_ok_ext; [|exact IH].
+    intros u Hu. unfold idefs, tag in Hu. cbn [fst snd] in Hu. unfold defs_of in *. cbn [flat_map].
+    repeat (apply in_app_iff in Hu as [Hu|Hu]); repeat rewrite in_app_iff; tauto.
+Qed.
+
+Theorem guard_widened sk : guard_noproto sk = true -> guard sk = true.
+Proof.
+  unfold guard_noproto, guard, section_ok. intros G.
+  repeat (apply andb_true_iff in G as [G ?]).
+  rename G into G1, H4 into G2, H3 into G3, H2 into G4, H1 into G5, H0 into G6, H into G7.
+  rewrite G1, G2, G3, G6, G7. cbn [andb]. rewrite !andb_true_r.
+  apply andb_true_iff. split; apply forallb_forall; intros b Hb.
+  - pose proof (section_bodies_ok _ _ _ G4 b Hb) as X. unfold body_ok in *.
+    eapply uses_ok_ext; [|exact X]. intros u Hu.
+    repeat (apply in_app_iff in Hu as [Hu|Hu]); repeat rewrite in_app_iff; tauto.
+  - pose proof (section_bodies_ok _ _ _ G5 b Hb) as X. unfold body_ok in *.
+    eapply uses_ok_ext; [|exact X]. intros u Hu.
+    repeat (apply in_app_iff in Hu as [Hu|Hu]); repeat rewrite in_app_iff; tauto.
 Qed.
 
 (* ------------------------------------------------------------ non-vacuity *)
 
 (* core=1 Servo.h=2 ; list helper=10 (uses core) ; globals 20 (uses core), 21 (uses 20 and 2) ;
-   functions 30 (uses 20, 10, itself), 31 (uses 30, 21) ; ultrasonic helper 40 (uses core) ;
-   setup uses 40 31 21 1 ; loop uses 30 40 20 *)
+   functions 30 (uses 20, 10, itself, the LATER function 31 and the ultrasonic helper 40), 31 (uses 30, 21) ;
+   ultrasonic helper 40 (uses core) ; setup uses 40 31 21 1 ; loop uses 30 40 20.
+   13 items: the 10 sections' members and the 3 prototypes (30, 31, 40).  Without the prototypes
+   item 5 (function 30) uses the undeclared 31 and 40. *)
 Definition demo_sketch : sketch :=
   {| sk_includes := [([1], []); ([2], [1])];
      sk_helpers := [([10], [1])];
      sk_globals := [([20], [1]); ([21], [20; 2])];
-     sk_functions := [([30], [20; 10; 30]); ([31], [30; 21])];
+     sk_functions := [([30], [20; 10; 30; 31; 40]); ([31], [30; 21])];
      sk_ultras := [([40], [1])];
      sk_setup := ([], [40; 31; 21; 1]);
      sk_loop := ([], [30; 40; 20]) |}.
 
 Example guard_nonvacuous :
   guard demo_sketch = true /\ wf_order (stitch demo_sketch) = true /\
-  length (stitch demo_sketch) = 10%nat /\ undeclared (stitch demo_sketch) = [].
+  length (stitch demo_sketch) = 13%nat /\ undeclared (stitch demo_sketch) = [] /\
+  map idefs (protos demo_sketch) = [[30]; [31]; [40]] /\
+  guard_noproto demo_sketch = false /\ undeclared (stitch_noproto demo_sketch) = [(5, 31); (5, 40)].
 Proof. vm_compute. repeat split; reflexivity. Qed.
 
 (* ------------------------------------------------------------ nothing is lost or invented by the stitching *)
@@ -371,17 +407,20 @@ Proof. vm_compute. repeat split; reflexivity. Qed.
 Theorem stitch_complete sk k b :
   In (k, b) (stitch sk) <->
   (k = KInclude /\ In b (sk_includes sk)) \/ (k = KHelper /\ In b (sk_helpers sk)) \/
-  (k = KGlobal /\ In b (sk_globals sk)) \/ (k = KFunction /\ In b (sk_functions sk)) \/
+  (k = KGlobal /\ In b (sk_globals sk)) \/
+  (k = KProto /\ exists d, In d (sk_functions sk ++ sk_ultras sk) /\ b = (fst d, [])) \/
+  (k = KFunction /\ In b (sk_functions sk)) \/
   (k = KUltra /\ In b (sk_ultras sk)) \/ (k = KSetup /\ b = sk_setup sk) \/ (k = KLoop /\ b = sk_loop sk).
 Proof.
-  unfold stitch, tag. rewrite !in_app_iff, !in_map_iff. cbn [In]. split.
-  - intros [(x & E & H)|[(x & E & H)|[(x & E & H)|[(x & E & H)|[(x & E & H)|[E|[E|[]]]]]]]];
-      inversion E; subst; tauto.
-  - intros [[-> H]|[[-> H]|[[-> H]|[[-> H]|[[-> H]|[[-> ->]|[-> ->]]]]]]]; eauto 12.
+  unfold stitch, protos, tag, proto_of. rewrite !in_app_iff, !in_map_iff. cbn [In]. split.
+  - intros [(x & E & H)|[(x & E & H)|[(x & E & H)|[(x & E & H)|[(x & E & H)|[(x & E & H)|[E|[E|[]]]]]]]]];
+      inversion E; subst; try tauto.
+    right. right. right. left. split; [reflexivity|]. exists x. split; [exact H|reflexivity].
+  - intros [[-> H]|[[-> H]|[[-> H]|[[-> (d & H & ->)]|[[-> H]|[[-> H]|[[-> ->]|[-> ->]]]]]]]]; eauto 14.
 Qed.
 
 Theorem stitch_length sk :
   length (stitch sk) =
   (length (sk_includes sk) + length (sk_helpers sk) + length (sk_globals sk) +
-   length (sk_functions sk) + length (sk_ultras sk) + 2)%nat.
-Proof. unfold stitch. rewrite !app_length, !map_length. cbn. lia. Qed.
+   2 * (length (sk_functions sk) + length (sk_ultras sk)) + 2)%nat.
+Proof. unfold stitch, protos. rewrite !app_length, !map_length, app_length. cbn. lia. Qed.
